@@ -224,6 +224,7 @@ fn dispatch(cmd: &str, a: &[&str]) -> Result<Vec<String>, String> {
             out.extend(headers_out(&back.headers));
             Ok(out)
         }
+        "mime" => { Ok(vec![hex(crate::mime_type::MimeType::detect_mime_type(&ustr(a[0])).as_bytes())]) }
         "uri_roundtrip" => {
             let t = ustr(a[0]);
             let enc = crate::url::URL::percent_encode(&t);
